@@ -1,6 +1,7 @@
 """C05 - sampled joint degree sequences are handshake-consistent minimal perturbations.
 Spec: Sampling.tla (MC + deviation), SamplingTrace.tla (JUDGE: runs and exact draw distributions)."""
 import itertools
+import math
 import random as _r
 from fractions import Fraction
 
@@ -28,6 +29,10 @@ def _loader(case):
     import gcmpy
     from gcmpy import JointDegreeNames as JN
     keys = [tuple(k) for k in case["keys"]]
+    if case.get("offset"):
+        # very large but legal degrees: every coordinate carries the same offset, a multiple of every motif size, so that
+        # divisibility, minimality and "never removes" are unchanged when the offset is taken off again in the trace
+        keys = [tuple(x + case["offset"] for x in k) for k in keys]
     if case.get("np_keys"):
         import numpy as np
         dt = getattr(np, case["np_keys"])
@@ -112,17 +117,19 @@ def execute(case):
     except Exception as ex:
         tr["raised"] = "%s: %s" % (type(ex).__name__, str(ex)[:60])
         return tr
+    off = case.get("offset", 0)
     if "raw" in captured:
         tr["raw_known"] = True
-        tr["raw"] = [[int(x) for x in r] for r in captured["raw"]]
+        tr["raw"] = [[int(x) - off for x in r] for r in captured["raw"]]
     K = len(tr["sizes"])
     ok = isinstance(out, (list, tuple))          # the container is not pinned down by the property; the entries are
     enc = []
     for e in (out if ok else []):
         import numbers
         good = isinstance(e, tuple) and len(e) == K and all(isinstance(x, numbers.Integral) and not isinstance(x, bool) and x >= 0 for x in e)
+        good = good and all(x >= off for x in e)
         ok = ok and good
-        enc.append([int(x) for x in e] if good else [0] * K)
+        enc.append([int(x) - off for x in e] if good else [0] * K)
     tr["types_ok"] = bool(ok)
     tr["out"] = enc
     tr["out_again"] = enc
@@ -130,10 +137,10 @@ def execute(case):
         # the returned sequence belongs to the caller: a later sample from the same loader must not change it
         try:
             Oracle().run_seeded(case["rng"][1] + 1, lambda: loader.sample_jds_from_jdd(max(1, case["N"] - 1)))
-            tr["out_again"] = [[int(x) for x in e] for e in out]
+            tr["out_again"] = [[int(x) - off for x in e] for e in out]
         except Exception:
             pass
-    if ok:
+    if ok and not off:
         # "usable wherever the library accepts a joint degree sequence"
         try:
             gcmpy.JointDegreeEmpirical({JN.MOTIF_SIZES: list(tr["sizes"]), JN.JDS: out})
@@ -268,6 +275,14 @@ def run(chk):
                 "scale": rng.choice(["int", "norm", "unnorm", "tiny", "huge"]), "via": rng.choice(["direct", "entry"]),
                 "rng": ("seed", rng.randrange(1 << 30))}
         traces.append(execute(case))
+    # (c') very large degrees (beyond 2^53, where a float quotient stops being exact)
+    for i in range(200 if thorough else 40):
+        T = rng.choice([1, 2])
+        sizes = [rng.choice([2, 3, 4, 5]) for _ in range(T)]
+        L = math.lcm(*sizes)
+        keys = list({tuple(rng.randrange(0, 6) for _ in range(T)) for _ in range(rng.randrange(1, 5))})
+        traces.append(execute({"keys": keys, "wts": [rng.randrange(1, 5) for _ in keys], "sizes": sizes, "N": rng.choice([1, 2, 3, 7, 1001]),
+                               "scale": "int", "offset": L * (2 ** 53 // L + rng.randrange(1, 50)), "rng": ("seed", rng.randrange(1 << 30))}))
     # (d) distributions derived from clique covers, singleton cliques (motif size 1) included
     for i in range(400 if thorough else 60):
         nv = rng.choice([4, 7, 12])
